@@ -25,6 +25,9 @@ pub enum Op {
     RewriteType(u16),
     /// add a user item of the given kind at the given position
     AddUser(u8, u16),
+    /// change the visibility / attributes of a generated function or type (`pub(crate)`,
+    /// `pub(super)`, extra attributes), keeping its name
+    EditHeader(u16, u8),
     Regenerate,
     RegenerateTwice,
     /// switch to the second grammar and regenerate
@@ -173,6 +176,7 @@ impl Prop for C18 {
             2 => any::<u16>().prop_map(Op::RewriteFn),
             1 => any::<u16>().prop_map(Op::RewriteType),
             2 => (any::<u8>(), any::<u16>()).prop_map(|(k, p)| Op::AddUser(k, p)),
+            2 => (any::<u16>(), any::<u8>()).prop_map(|(s, h)| Op::EditHeader(s, h)),
             3 => Just(Op::Regenerate),
             1 => Just(Op::RegenerateTwice),
             1 => Just(Op::ChangeGrammar),
@@ -197,8 +201,9 @@ impl Prop for C18 {
         "case = AST-shape-rich generated grammar A (and B), builder_loc_info on/off, and a generated \
          history of 1..9 operations interpreted on the real actions file: delete a random subset of \
          generated items (type alias / enum / choice struct / action fn), rewrite a function body, \
-         rewrite a type, add user items (fn, struct, const, struct+impl, use, documented fn) at random \
-         positions, regenerate (force off), regenerate twice, change the grammar to B and regenerate. \
+         rewrite a type, narrow the visibility of / add attributes to a generated function or type \
+         (pub(crate), pub(super), #[inline], #[allow(..)]), add user items (fn, struct, const, \
+         struct+impl, use, documented fn) at random positions, regenerate (force off), regenerate twice, change the grammar to B and regenerate. \
          Model = list of syn items. After every regeneration: every item of the file before is \
          present token for token in the same relative order; the new items are a subset of {items of a fresh forced generation of the current grammar, by \
          namespace (type / fn) and name} minus {names already present}, each identical to the fresh \
@@ -316,6 +321,43 @@ impl Prop for C18 {
                     match &mut all[k] {
                         syn::Item::Type(t) => t.ty = Box::new(syn::parse_quote! { std::rc::Rc<str> }),
                         syn::Item::Struct(s) => s.attrs.push(syn::parse_quote! { #[doc = "edited by the user"] }),
+                        _ => {}
+                    }
+                    edited += 1;
+                    write_items(&w.actions(), &all);
+                }
+                Op::EditHeader(sel, how) => {
+                    let cand: Vec<usize> = items.iter().enumerate().filter(|(_, (_, c))| !c.header && c.ns != "other").map(|(i, _)| i).collect();
+                    if cand.is_empty() {
+                        continue;
+                    }
+                    let k = cand[pick(*sel, cand.len())];
+                    let mut all: Vec<syn::Item> = items.iter().map(|x| x.0.clone()).collect();
+                    let vis: syn::Visibility = match how % 3 {
+                        0 => syn::parse_quote! { pub(crate) },
+                        1 => syn::parse_quote! { pub(super) },
+                        _ => syn::parse_quote! { pub },
+                    };
+                    let attr: syn::Attribute = syn::parse_quote! { #[allow(dead_code)] };
+                    match &mut all[k] {
+                        syn::Item::Fn(f) => {
+                            f.vis = vis;
+                            if how % 3 == 2 {
+                                f.attrs.push(syn::parse_quote! { #[inline] });
+                            }
+                        }
+                        syn::Item::Struct(x) => {
+                            x.vis = vis;
+                            x.attrs.push(attr);
+                        }
+                        syn::Item::Enum(x) => {
+                            x.vis = vis;
+                            x.attrs.push(attr);
+                        }
+                        syn::Item::Type(x) => {
+                            x.vis = vis;
+                            x.attrs.push(attr);
+                        }
                         _ => {}
                     }
                     edited += 1;
